@@ -159,6 +159,9 @@ class Rx:
                 st.ctx.ranges[nn.term.as_single_atom()] = (Fr(0), Fr(127))
 
         ch = rx.get('channel')
+        if not isinstance(ch, Num) or ch.term.as_single_atom() is None:
+            raise InterpError('MonoMidiReceiver.channel is no longer a plain channel number (%r): the representation of anchored state changed, '
+                              'the rules cannot locate the listened channel' % (ch,))
         st.ctx.ranges[ch.term.as_single_atom()] = (Fr(0), Fr(15))
 
         def setf(name, v):
@@ -331,10 +334,8 @@ def check_edges_and_held(res, facts, prop):
                         res.ob('R-FRAME', 'handled:' + inst + '|returns', True, 'no panic on this path', where_of(facts, RX + '::parse'), key='R-FRAME:handled:' + inst, nontrivial=False)
                         res.ob('R-FRAME', 'handled:' + inst + '|parser state untouched by the handlers', same(pre.get('parser'), post.get('parser')),
                                'the receiver overwrote its byte parser (%r): running status / partial messages are lost' % (post.get('parser'),), where_of(facts, RX + '::parse'), key='R-FRAME:parser:' + inst)
-                        # "... and applying only the supported messages": the note / All-Notes-Off semantics themselves
-                        if mname in ('note_on', 'note_on_vel0', 'note_off', 'all_notes_off'):
-                            edge_obligations(res, facts, inst, ps, mname, pre, post, o)
-                            held_obligations(res, facts, inst, ps, mname, prio, pre, post, o, msg)
+                        # WHAT applying a supported note message does is C04's / C05's statement, not judged here: C06 is about
+                        # which bytes become which messages and which messages are applied at all
                     elif prop == 'C05':
                         edge_obligations(res, facts, inst, ps, mname, pre, post, o)
                     else:
